@@ -93,6 +93,8 @@ type vkKernel struct {
 	emptyReads    int // reads that returned EAGAIN
 	waiting       int // pollers blocked in epoll_wait
 	failAdd       map[int]bool // fds for which EPOLL_CTL_ADD fails (fault injection)
+	connectImmediately bool   // connect(2) succeeds at once instead of EINPROGRESS
+	onNewSocket   func(f *vkFd) // harness hook: socket(2) created f
 	log           []string
 }
 
@@ -294,6 +296,9 @@ func vk_GetsockoptInt(fd, level, opt int) (int, error) {
 
 func vk_Socket(domain, typ, proto int) (int, error) {
 	f := vk.newFd(vkSockStream)
+	if vk.onNewSocket != nil {
+		vk.onNewSocket(f)
+	}
 	return f.fd, nil
 }
 
@@ -301,6 +306,11 @@ func vk_Connect(fd int, sa syscall.Sockaddr) error {
 	f := vk.get(fd, "connect")
 	if f == nil {
 		return syscall.EBADF
+	}
+	if vk.connectImmediately {
+		// a connect that completes at once (unix sockets do)
+		f.edgeOut = true
+		return nil
 	}
 	f.connecting = true
 	return syscall.EINPROGRESS
